@@ -757,6 +757,12 @@ def _iteration_api(rng, tier, st, cov):
     cov.setdefault('extra', {})['iteration_functions_called_directly'] = {'runs': n}
     return out
 
+def extra_C16(rng, tier, st, cov):
+    # the real MPI drivers (with an iteration above 2^32 calls) when the translated share expressions no longer match the headers, and in the thorough tier
+    if tier == 'thorough' or not st.get('translator', (True,))[0]:
+        return extra_C04(rng, tier, st, cov, pid='C16')
+    return []
+
 def extra_C10(rng, tier, st, cov):
     # the serial library with counting engines, and the MPI drivers under real MPI (stored generator = serial one) with engines that are
     # instantiations of the standard templates themselves
@@ -1441,11 +1447,14 @@ def extra_C04(rng, tier, st, cov, pid='C04'):
     except tie.Stage as e:
         return [viol('the MPI drivers do not compile with the real MPI headers: ' + e.detail[-300:], [], tie=True)]
     worlds = [2, 3] if tier == 'quick' else [1, 2, 3, 5, 8]
+    # an iteration with more than 2^32 calls: when the share expression translated from the headers no longer matches (directed search)
+    # and once in the thorough tier
+    huge_at = 3 if (tier == 'thorough' or not st.get('translator', (True,))[0]) else None
     for P in worlds:
         seed = rng.getrandbits(20)
         try:
-            p = subprocess.run(['timeout', '300', 'mpirun', '--allow-run-as-root', '--oversubscribe', '-np', str(P), exe, str(seed)],
-                               stdout=subprocess.PIPE, stderr=subprocess.PIPE, universal_newlines=True, timeout=400)
+            p = subprocess.run(['timeout', '600', 'mpirun', '--allow-run-as-root', '--oversubscribe', '-np', str(P), exe, str(seed)] + (['huge'] if P == huge_at else []),
+                               stdout=subprocess.PIPE, stderr=subprocess.PIPE, universal_newlines=True, timeout=700)
         except subprocess.TimeoutExpired:
             out.append(viol('real MPI run with %d processes did not finish (a rank hangs in a collective)' % P, [], {'mpirun_np': P, 'seed': seed})); continue
         stats['runs'] += 1; stats['world_sizes'].append(P)
